@@ -50,10 +50,13 @@ def atoms(ty):
     return 2 if ty == "Vec" else 1
 
 
-def grid(types, rng):
+def grid(types, rng, custom=None):
+    """custom: per-parameter-position list of ints replacing the default pool (functions whose cost grows with the value)"""
     pools = []
-    for t in types:
-        if t == "Bool":
+    for k, t in enumerate(types):
+        if custom and custom[k] is not None:
+            pools.append([(a,) for a in custom[k]])
+        elif t == "Bool":
             pools.append([(False,), (True,)])
         elif t == "Vec":
             pools.append([(a, b) for a in SMALL for b in (-500, -3, 0, 2, 99, 500)])
@@ -147,7 +150,9 @@ def run(keep=False) -> dict:
               "      IO.println (f xs)", ""]
         for idx, t in enumerate(gen.targets):
             types = [ty for _, ty in t.lean_params()]
-            combos = grid(types, rng)
+            cg = t.d.get("selftest_grid")  # e.g. {"b": [..]}: inputs for parameters whose size drives the running time
+            custom = [cg.get(n) if cg else None for n, _ in t.lean_params()]
+            combos = grid(types, rng, custom)
             plan.append((t, types, combos))
             n_atoms = sum(atoms(ty) for ty in types)
             rows = []
